@@ -14,6 +14,7 @@ needs `HashOK H` (collision-free on the tagged 65-byte inputs, never the zero su
 import FuelVerif.Lemmas.SparseStore
 import FuelVerif.Lemmas.SparseRefine
 import FuelVerif.Lemmas.SparseRefineDelete
+import FuelVerif.Props.C12Store
 namespace FuelVerif.SmtStore
 open FuelVerif FuelVerif.Gen.Sparse
 
@@ -106,8 +107,8 @@ def PersistStatement : Prop :=
 a canonical tree `t` and all nodes of `t` are in the store (`SmtRefine.Rep`, garbage allowed), then
 reloading from the store at the current root returns the identical state. (`Rep` is established by
 `new` and preserved by `insert`/`delete`: `SmtRefine.insert_rep`, `SmtRefine.delete_rep`.) -/
-theorem rep_reload (hok : FuelVerif.SmtBytes.HashOK H) (s : SMT σ) (t : FuelVerif.SmtRefine.T)
-    (hr : FuelVerif.SmtRefine.Rep H hok S s t) : load H S s.storage s.rootHash = .ok s :=
+theorem rep_reload {U : FuelVerif.SmtRefine.T → Prop} (hok : FuelVerif.SmtRefine.HashOn H U) (s : SMT σ)
+    (t : FuelVerif.SmtRefine.T) (hr : FuelVerif.SmtRefine.Rep H hok S s t) : load H S s.storage s.rootHash = .ok s :=
   load_roundtrip H S s (FuelVerif.SmtRefine.rep_rootPersisted H hok S hr)
 
 /-! ### the persistence invariant over all histories -/
@@ -145,26 +146,27 @@ def PersistStatementOK : Prop :=
 open FuelVerif.SmtBytes FuelVerif.SmtRefine in
 /-- every reachable state represents a canonical structural tree -/
 theorem reachable_rep (hok : HashOK H) (laws : StoreLaws S) :
-    ∀ (ops : List (Bool × Bytes × Bytes)) (s : SMT σ), (∃ t, Rep H hok S s t) →
-      (∀ op ∈ ops, op.2.1.length = keyBytes) → ∃ t, Rep H hok S (ops.foldl (opStep H S) s) t
+    ∀ (ops : List (Bool × Bytes × Bytes)) (s : SMT σ), (∃ t, Rep H hok.toOn S s t) →
+      (∀ op ∈ ops, op.2.1.length = keyBytes) → ∃ t, Rep H hok.toOn S (ops.foldl (opStep H S) s) t
   | [], _, h, _ => h
   | op :: ops, s, ⟨t, hr⟩, hk => by
     have hk0 := hk op List.mem_cons_self
     refine reachable_rep hok laws ops _ ?_ (fun o ho => hk o (List.mem_cons_of_mem _ ho))
     unfold opStep
     by_cases hb : op.1 = true
-    · obtain ⟨s', h1, h2⟩ := insert_rep H hok S laws hr ⟨op.2.1, hk0⟩ op.2.2 ⟨H op.2.2, hok.len _⟩ rfl
+    · obtain ⟨s', h1, h2⟩ := insert_rep H hok.toOn S laws hr ⟨op.2.1, hk0⟩ op.2.2 ⟨H op.2.2, hok.len _⟩ rfl
+        (fun _ _ => trivial)
       simp only at h1
       rw [if_pos hb, h1]
       exact ⟨_, h2⟩
-    · obtain ⟨s', h1, h2⟩ := delete_rep H hok S laws hr ⟨op.2.1, hk0⟩
+    · obtain ⟨s', h1, h2⟩ := delete_rep H hok.toOn S laws hr ⟨op.2.1, hk0⟩ (fun _ _ => trivial)
       simp only at h1
       rw [if_neg hb, h1]
       exact ⟨_, h2⟩
 
 open FuelVerif.SmtBytes FuelVerif.SmtRefine in
 /-- in a represented state everything reachable through the node table is a node of the tree -/
-theorem rep_reach (hok : HashOK H) {s : SMT σ} {t : T} (hr : Rep H hok S s t) :
+theorem rep_reach {U : T → Prop} (hok : HashOn H U) {s : SMT σ} {t : T} (hr : Rep H hok S s t) :
     ∀ h, Reach S s.storage s.rootHash h →
       h = zeroSum ∨ ∃ (u : T) (d : Nat), u ≠ .empty ∧ Stored H hok S s.storage d u ∧ hb H hok u = h := by
   intro h hreach
@@ -202,7 +204,8 @@ theorem rep_reach (hok : HashOK H) {s : SMT σ} {t : T} (hr : Rep H hok S s t) :
 
 open FuelVerif.SmtBytes FuelVerif.SmtRefine in
 /-- a represented state is closed -/
-theorem rep_closed (hok : HashOK H) {s : SMT σ} {t : T} (hr : Rep H hok S s t) : Closed H S s := by
+theorem rep_closed {U : T → Prop} (hok : HashOn H U) {s : SMT σ} {t : T} (hr : Rep H hok S s t) :
+    Closed H S s := by
   intro h hreach hz
   rcases rep_reach H S hok hr h hreach with e | ⟨u, d, hne, hs, e⟩
   · exact absurd e hz
@@ -214,8 +217,8 @@ node stored under its hash and a storage closed under the tree -/
 theorem persistStatement_holds : PersistStatementOK H S := by
   intro hok laws st ops hk
   obtain ⟨t, hr⟩ := reachable_rep H S hok laws ops (SMT.new st)
-    ⟨.empty, trivial, rfl, trivial⟩ hk
-  exact ⟨FuelVerif.SmtRefine.rep_rootPersisted H hok S hr, rep_closed H S hok hr⟩
+    ⟨.empty, trivial, rfl, trivial, fun _ h => absurd h id⟩ hk
+  exact ⟨FuelVerif.SmtRefine.rep_rootPersisted H hok.toOn S hr, rep_closed H S hok.toOn hr⟩
 
 /-- **reload at ANY point of ANY history is the identity**: for every reachable state, `MerkleTree::load`
 from its storage at its current root returns the very same state — hence (`reload_same_behaviour`) the same
@@ -236,6 +239,43 @@ theorem reload_mid_history (hok : FuelVerif.SmtBytes.HashOK H) (laws : StoreLaws
   refine ⟨_, reachable_load_roundtrip H S hok laws st pre
     (fun op ho => hk op (List.mem_append_left _ ho)), ?_⟩
   rw [List.foldl_append]
+
+/-! ### non-vacuous form: no collision among the inputs the history itself hashes -/
+
+open FuelVerif.Smt FuelVerif.SmtBytes FuelVerif.SmtRefine in
+/-- **C13, persistence clause, NON-VACUOUS form.** For ANY `H` with 32-byte output (no injectivity assumed), a
+lawful node table, any initial storage and any history run by the transcribed `insert` / `delete`: if `H` has no
+collision and no zero-sum preimage among the finitely many tagged inputs the history hashes
+(`Smt.hashedInputs H ops`), the reached state has its root node stored under its hash (`RootPersisted`), its
+storage is closed under the tree (`Closed`), and `MerkleTree::load` at its root returns the identical state. -/
+theorem store_persist_nc (hl : ∀ x, (H x).length = keyBytes) (laws : StoreLaws S) (st0 : σ)
+    (ops : List (Op Key32 Bytes)) (hnc : NoCollisionOn H (hashedInputs H hl ops)) :
+    RootPersisted H S (storeRun H S st0 ops) ∧ Closed H S (storeRun H S st0 ops) ∧
+      load H S (storeRun H S st0 ops).storage (storeRun H S st0 ops).rootHash = .ok (storeRun H S st0 ops) := by
+  have hr := (store_history_rep_nc H S hl laws st0 ops hnc).2
+  have hp := rep_rootPersisted H _ S hr
+  exact ⟨hp, rep_closed H S _ hr, load_roundtrip H S _ hp⟩
+
+open FuelVerif.Smt FuelVerif.SmtBytes FuelVerif.SmtRefine in
+/-- **collision-extraction form**: EITHER the reached state is persisted, closed and reloads to itself, OR there
+is an explicit collision (two different hashed inputs with the same hash, or one hashing to the zero sum) among
+`Smt.hashedInputs H ops` -/
+theorem store_persist_or_collision (hl : ∀ x, (H x).length = keyBytes) (laws : StoreLaws S) (st0 : σ)
+    (ops : List (Op Key32 Bytes)) :
+    (RootPersisted H S (storeRun H S st0 ops) ∧ Closed H S (storeRun H S st0 ops) ∧
+      load H S (storeRun H S st0 ops).storage (storeRun H S st0 ops).rootHash = .ok (storeRun H S st0 ops)) ∨
+    Collision H (hashedInputs H hl ops) :=
+  or_collision (store_persist_nc H S hl laws st0 ops)
+
+open FuelVerif.Smt FuelVerif.SmtBytes FuelVerif.SmtRefine in
+/-- crash-point form, non-vacuous: reload after a prefix, then run the suffix — the same state as without the
+reload, provided `H` does not collide on the inputs the PREFIX hashes -/
+theorem store_reload_mid_history_nc (hl : ∀ x, (H x).length = keyBytes) (laws : StoreLaws S) (st0 : σ)
+    (pre suf : List (Op Key32 Bytes)) (hnc : NoCollisionOn H (hashedInputs H hl pre)) :
+    ∃ s, load H S (storeRun H S st0 pre).storage (storeRun H S st0 pre).rootHash = .ok s ∧
+      suf.foldl (storeStep H S) s = storeRun H S st0 (pre ++ suf) := by
+  refine ⟨_, (store_persist_nc H S hl laws st0 pre hnc).2.2, ?_⟩
+  simp [storeRun, List.foldl_append]
 
 /-- the hypothesis on the hash function cannot be dropped: with a hash function that returns the zero sum the
 first inserted leaf is indistinguishable from a placeholder, and `PersistStatement` as first written fails -/
